@@ -817,7 +817,7 @@ class ServiceBrowser(_ServiceBrowserBase, threading.Thread):
         """Run the browser thread."""
         while True:
             event = self.queue.get()
-            if event is None or self.done:
+            if event is None or self.done or self.zc.done:
                 return
             self._fire_service_state_changed_event(event)
 
